@@ -54,14 +54,14 @@ METHOD_TO_NAME = {'features': 'Features', 'leaf_features': 'Leaf features', 'bra
                   'mandatory_features': 'Mandatory features'}
 
 
-def reference(shape, cards, abstract, trees) -> dict:
+def reference(shape, cards, abstract, trees, names=None) -> dict:
     """name -> expected value; listings are sorted lists of feature names or counts for textual listings."""
     n = R.n_features(shape)
     rels = R.relations_of(shape)
     par = R.parents_of(shape)
     chil = R.children_of(shape)
     rbp = R.rels_by_parent(shape)
-    names = ['F%d' % i for i in range(n)]
+    names = ['F%d' % i for i in range(n)] if names is None else names
     cls = [R.rel_class(cards[ri][0], cards[ri][1], len(rels[ri][1])) for ri in range(len(rels))]
     relof = {}
     for ri, (p, cs) in enumerate(rels):
@@ -131,14 +131,14 @@ def reference(shape, cards, abstract, trees) -> dict:
     return ref
 
 
-def check_report(result, shape, cards, abstract, trees, model, subset=None) -> list:
+def check_report(result, shape, cards, abstract, trees, model, subset=None, feat_names=None) -> list:
     """Returns a list of (key, message); empty = report is fine."""
     out = []
     names = [r['name'] for r in result]
     if len(set(names)) != len(names):
         out.append(('duplicate-metric', 'metric names not unique: %d entries, %d names' % (len(names), len(set(names)))))
         return out
-    ref = reference(shape, cards, abstract, trees)
+    ref = reference(shape, cards, abstract, trees, feat_names)
     if subset is None:
         missing = [k for k in ref if k not in names] + [k for k in ('Pseudo-complex constraints', 'Strict-complex constraints') if k not in names]
         if missing or len(names) != 40:
@@ -449,7 +449,14 @@ def batches(tier, seed):
     N = 4 if tier == 'quick' else 5
     total = len(R.shapes(N))
     step = total // 16 + 1
-    return [('batch_native', [N, lo, lo + step, seed + lo]) for lo in range(0, total, step)] + [('batch_filter_pairs', [seed])]
+    b = [('batch_native', [N, lo, lo + step, seed + lo]) for lo in range(0, total, step)] + [('batch_filter_pairs', [seed])]
+    if tier == 'quick':
+        b += [('batch_larger', ['random', seed * 3 + i, 40, 6, 16, 0]) for i in range(2)]
+        b += [('batch_larger', ['corpus', seed, 48, 0, 0, 150000, i, 2]) for i in range(2)]
+    else:
+        b += [('batch_larger', ['random', seed * 3 + i, 250, 6, 40, 0]) for i in range(8)]
+        b += [('batch_larger', ['corpus', seed, 100000, 0, 0, 10 ** 9, i, 16]) for i in range(16)]
+    return b
 
 
 def info(tier):
@@ -463,3 +470,24 @@ def info(tier):
                      'bounds': {'shapes': 'N<=%d' % (4 if tier == 'quick' else 5), 'history': 2, 'constraints': '<=3 trees'},
                      'stubs': []},
     }
+
+
+# -- larger inputs: random shapes beyond the exhaustive bound, shipped corpus --------------------------------
+from .larger import replay_model  # noqa: E402,F401
+
+
+def larger_check(shape, cards, m):
+    from .c14 import _index
+    feats = _index(m)
+    names = [f.name for f in feats]
+    if len(set(names)) != len(names):
+        return []          # duplicated names (some error-guessing corpus files): listings by name are ambiguous, outside the claim
+    abstract = [bool(f.is_abstract) for f in feats]
+    trees = [R.node_tree(c.ast.root) for c in m.ctcs]
+    res = FMMetrics().execute(m).get_result()
+    return ['%s [%s]' % (msg, key) for key, msg in check_report(res, shape, cards, abstract, trees, m, feat_names=names)][:3]
+
+
+def batch_larger(kind, seed, count, lo_n, hi_n, max_bytes, part=0, parts=1):
+    from . import larger
+    return larger.batch_models(__name__, 'larger_check', 'metrics-larger', kind, seed, count, lo_n, hi_n, max_bytes, part, parts)
